@@ -16,6 +16,7 @@ RULE += " Per update also: every portfolio's holdings move by exactly the quanti
 RULE += " 20% of the orders carry a creation time other than the broker's now (-3D ... +17h30min): submission order decides. Two directed scripts per case: an order for an asset that gets its first quote only at the fill time waits through 1-6 updates outside exchange hours (weekend included), untouched, and fills in full at the first in-hours update."
 RULE += ' 7% of the order requests are a buy and a sell of the same size for one asset submitted back to back (both wait in the same queue and fill in one update).'
 RULE += ' Kept handles as in C01; 4% of the time steps add 1-999 ns to the instant.'
+RULE += ' A refused request (e.g. a duplicate create_portfolio) must leave the pending orders of every portfolio as they were; start instants before 1970 are among the choices.'
 ASSUMPTIONS = [
     'times are non-decreasing and every ordered asset has a quote (the quantifier); UTC timestamps',
     'fill order across different portfolios is not observable through the API and is only recorded',
